@@ -209,6 +209,25 @@ private theorem s1_sound0 : Sound0 s1 := by
     rw [show s1.cfg = c1 from rfl, this] at hsc
     cases hsc
 
+/-- **Why the run theorems ask for `NoWritten s0`** (and the step theorems for `WrOK s`).  Since the model has held
+write results (`WriteJob.written`, `gate writeDone`: the piece writer's storage calls have returned, its result
+is delivered later) a `written` job is *trusted*: its delivery sets the bit without any storage call.  `InitLike`
+does not exclude an initial state with such a job claiming the next generation of pieces: one `start` — fresh
+allocation, generation 1, the "result" is delivered as current — and the bit of piece 0 is set, the torrent seeds,
+with nothing on disk.  (No torrent object is created with a write in flight; along every history from a state
+without one the invariant `WrOK` — a held, current result has its bytes on disk — holds: `drun_wrOK`.) -/
+theorem held_result_trusted_counterexample :
+    InitLike { s1 with writing := some { piece := 0, src := 0, good := true, gen := 1, written := true } } ∧
+    ¬ NoWritten { s1 with writing := some { piece := 0, src := 0, good := true, gen := 1, written := true } } ∧
+    (drun ({ s1 with writing := some { piece := 0, src := 0, good := true, gen := 1, written := true } }, none)
+      [⟨.start, kn [], [], []⟩]).1.bf = some [true] ∧
+    (drun ({ s1 with writing := some { piece := 0, src := 0, good := true, gen := 1, written := true } }, none)
+      [⟨.start, kn [], [], []⟩]).1.diskOK = [false] ∧
+    (drun ({ s1 with writing := some { piece := 0, src := 0, good := true, gen := 1, written := true } }, none)
+      [⟨.start, kn [], [], []⟩]).1.status = .seeding :=
+  ⟨⟨s1_sound0.cfg, s1_sound0.bad, rfl, rfl, rfl, rfl, rfl, rfl, rfl, rfl, rfl, rfl, rfl, rfl, rfl, rfl, rfl⟩,
+   fun h => absurd (h _ rfl).1 (by decide), by decide, by decide, by decide⟩
+
 /-! `reported_only_verified_step` is not vacuous: with a second peer that lacks the piece, the step in
 which the write completes sends it `have:0`, and piece 0 is then verified on disk. -/
 private def evs2 : List Ev := [
